@@ -31,17 +31,34 @@ def classify(gens, n=None, record=False, routes=None):
     return read_class(c), c, rec
 
 
-def read_class(c):
-    """everything the classification of this collection object exposes now, as text"""
+QUERIES = ["algebra", "dim", "morphs", "vertices", "dependents", "independents"]
+
+
+def read_class(c, order=None):
+    """everything the classification of this collection object exposes now, as text; the queries are asked in the
+    given order (a cache filled by one query must not leak a stale answer into another)"""
     out = {"gens": [str(g) for g in c.get()]}
-    out["algebra"] = c.get_algebra()
-    out["dim"] = c.get_dla_dim()
-    cl = c.get_class()
-    out["morphs"] = [{"legs": [[str(v) for v in leg] for leg in m.get_legs()],
-                      "deps": [str(d) for d in m.get_dependents()]} for m in cl.get_morphs()]
-    out["vertices"] = [str(v) for v in c.get_canonic_vertices()]
-    out["dependents"] = [str(v) for v in c.get_dependents()]
-    out["independents"] = [str(v) for v in c.get_independents()]
+    def ask(name):
+        if name == "algebra":
+            out["algebra"] = c.get_algebra()
+        elif name == "dim":
+            out["dim"] = c.get_dla_dim()
+        elif name == "morphs":
+            cl = c.get_class()
+            out["morphs"] = [{"legs": [[str(v) for v in leg] for leg in m.get_legs()],
+                              "deps": [str(d) for d in m.get_dependents()]} for m in cl.get_morphs()]
+        elif name == "vertices":
+            out["vertices"] = [str(v) for v in c.get_canonic_vertices()]
+        elif name == "dependents":
+            out["dependents"] = [str(v) for v in c.get_dependents()]
+        elif name == "independents":
+            out["independents"] = [str(v) for v in c.get_independents()]
+    for name in (order or QUERIES):
+        ask(name)
+    for name in QUERIES:
+        if name not in out:
+            ask(name)
+    out["order"] = list(order or QUERIES)
     return out
 
 
@@ -96,14 +113,24 @@ def gen_steps(rng, n, g, lo=1, hi=3, setitem=False):
     return steps, cur
 
 
-def classify_history(gens, steps):
-    """one collection object: classify, then after every in-place edit classify again"""
+def classify_history(gens, steps, orders=None):
+    """one collection object: classify, then after every in-place edit classify again; orders[i] = order of the
+    queries at stage i"""
     c = _coll(gens)
-    out = [read_class(c)]
-    for st in steps:
+    orders = orders or [None] * (len(steps) + 1)
+    out = [read_class(c, orders[0])]
+    for i, st in enumerate(steps):
         apply_step(c, st)
-        out.append(read_class(c))
+        out.append(read_class(c, orders[i + 1]))
     return out
+
+
+def gen_orders(rng, k):
+    res = []
+    for _ in range(k):
+        o = list(QUERIES); rng.shuffle(o)
+        res.append(o[:rng.randint(1, len(o))])
+    return res
 
 
 def mk_string(text, route="parse"):
